@@ -14,11 +14,19 @@ import (
 type vfErrLog struct {
 	codes  []errors.ErrorCode
 	states []model.StateOfDatatype
+	olds   []model.StateOfDatatype
+	bogus  int // reported transitions whose new state is not the state the datatype is in
 }
 
 func (l *vfErrLog) handlers() *orda.Handlers {
 	return orda.NewHandlers(
-		func(dt orda.Datatype, old, new model.StateOfDatatype) { l.states = append(l.states, new) },
+		func(dt orda.Datatype, old, new model.StateOfDatatype) {
+			l.states = append(l.states, new)
+			l.olds = append(l.olds, old)
+			if old == new || orda.VFDatatypeState(dt) != new {
+				l.bogus++
+			}
+		},
 		func(dt orda.Datatype, opList []interface{}) {},
 		func(dt orda.Datatype, errs ...errors.OrdaError) {
 			for _, e := range errs {
@@ -86,7 +94,11 @@ func VF_C13_Client() {
 	if scenario != 3 {
 		vf.Assert(len(w.store.Datatypes) == nDts, "C13 a refused entry stores nothing")
 		vf.Assert(countState(log.states, model.StateOfDatatype_SUBSCRIBED) == 0, "C13 a refused entry does not report a subscription")
+		vf.Assert(len(log.states) == 0, "C13 a refused entry reports no state change at all")
+	} else {
+		vf.Assert(len(log.states) == 1 && log.olds[0] == model.StateOfDatatype_DUE_TO_SUBSCRIBE_CREATE, "C13 the one reported transition starts from the state the entry call left the datatype in")
 	}
+	vf.Assert(log.bogus == 0, "C13 every reported transition is one the datatype made")
 	// the client remains usable: a is unaffected and a valid exchange still works
 	_, _ = a.cnt.IncreaseBy(10)
 	vf.Assert(a.sync() == nil && a.cnt.Get() == 11, "C16 the service and other clients remain usable after a refusal")
